@@ -614,3 +614,34 @@ def _ord_cmp_via_partial(it, st, args, ctx):
 @summary(r'^<(tmelcrypt::)?(HashVal|Ed25519PK) as PartialEq>::eq$')
 def _hashval_eq(it, st, args, ctx):
     return simp(val_eq(deref(it, st, args[0]), deref(it, st, args[1])))
+
+
+@summary(r'^core::str::<impl str>::as_bytes$')
+def _str_as_bytes(it, st, args, ctx):
+    s = deref(it, st, args[0])
+    if isinstance(s, Opaque) and s.kind == 'str':
+        return Ptr(st.alloc(Agg('bytes', [bv(b, 8) for b in s.data.encode('utf-8')])))
+    raise Unsupported('as_bytes of %r' % (s,))
+
+
+@summary(r'^<(u8|u16|u32|u64|u128|usize) as (std::ops::)?(Add|Sub|Mul)Assign(<&?\w+>)?>::(add|sub|mul)_assign$')
+def _int_op_assign(it, st, args, ctx):
+    a, b = it.load(st, args[0]), deref(it, st, args[1])
+    op = ctx.callee.rsplit('::', 1)[1].split('_')[0]
+    if op == 'add':
+        ok, r = z3.BVAddNoOverflow(a, b, False), a + b
+    elif op == 'sub':
+        ok, r = z3.UGE(a, b), a - b
+    else:
+        ok, r = z3.BVMulNoOverflow(a, b, False), a * b
+    outs = []
+    ok = simp(ok)
+    if not z3.is_true(ok) and it.feasible(st, z3.Not(ok)):
+        f = st.fork()
+        f.assume(z3.Not(ok))
+        outs.append((f, Panic('attempt to %s with overflow' % op, ctx.fn.name)))
+    if z3.is_true(ok) or it.feasible(st, ok):
+        st.assume(ok)
+        it.store(st, args[0], r)
+        outs.append((st, Ret(UNIT)))
+    return outs
